@@ -916,8 +916,55 @@ def rule_k17(repo):
                     '%s:%d' % (THM, bad[0].lineno if bad else sites[0].lineno))
     return res
 
+def rule_k18(repo, rid='C01.K18'):
+    """The post-step type check (K4) is what keeps ill-formed terms out of accepted sequents.  It finds the type of a bound
+    variable by position in the list of enclosing binders: `bd_vars[t.n]`.  Python reads a negative position from the *end*
+    of the list, so the index must be refused when it is negative as well as when it is too large - otherwise Bound(-1)
+    under two binders has a type (that of the outermost binder), the term counts as closed, and a step about it is
+    accepted.  Every such look-up in the type-computing functions of kernel/term.py is behind both bounds."""
+    from ..astutil import comparison_holding
+    res = RuleResult(rid, 'the type of a bound variable is looked up only for an index that is neither negative nor too large', floor=2)
+    m = repo.module(TERM)
+    for f in m.all_funcs:
+        top = f
+        while top.parent is not None:
+            top = top.parent
+        if 'get_type' not in top.name:
+            continue
+        subs = [n for n in ast.walk(f.node) if isinstance(n, ast.Subscript) and isinstance(n.ctx, ast.Load) and isinstance(n.slice, ast.Attribute) and
+                n.slice.attr == 'n' and isinstance(n.value, ast.Name)]
+        own = {id(x) for g in f.nested.values() for x in ast.walk(g.node)} if getattr(f, 'nested', None) else set()
+        subs = [n for n in subs if id(n) not in own]
+        if not subs:
+            continue
+        cfg = cfg_of(f.node)
+        for sub in subs:
+            idx = src(sub.slice)
+
+            def nonneg(e, pol, idx=idx):
+                for op, a, b in comparison_holding(e, pol):
+                    if src(a) == idx and isinstance(b, ast.Constant) and ((op is ast.GtE and b.value == 0) or (op is ast.Gt and b.value == -1)):
+                        return True
+                return False
+
+            def small(e, pol, idx=idx, lst=sub.value.id):
+                for op, a, b in comparison_holding(e, pol):
+                    if src(a) == idx and op is ast.Lt and isinstance(b, ast.Call) and is_name(b.func, 'len') and b.args and is_name(b.args[0], lst):
+                        return True
+                return False
+            n = cfg.node_for(sub)
+            e1, e2 = cfg.establishing_edges(nonneg), cfg.establishing_edges(small)
+            ok1 = bool(e1) and n is not None and cfg.path_avoiding(n, skip_edges=e1) is None
+            ok2 = bool(e2) and n is not None and cfg.path_avoiding(n, skip_edges=e2) is None
+            res.add('%s :: %s :: lookup(%s[%s])' % (TERM, f.qualname, sub.value.id, idx), ok1 and ok2,
+                    'behind %s >= 0 and %s < len(%s)' % (idx, idx, sub.value.id) if ok1 and ok2 else
+                    'line %d reads `%s` %s: Python counts a negative index from the end, so %%x. %%y. Bound(-1) gets the type of x, is not "open", '
+                    'and the checker accepts a step about it' % (sub.lineno, src(sub), 'without a test that the index is not negative' if not ok1 else
+                                                                 'without a test that the index is below the number of binders'), '%s:%d' % (TERM, sub.lineno))
+    return res
+
 
 def rules(repo):
     return [rule_k1(repo), rule_k2(repo), rule_k3(repo), rule_k4(repo), rule_k5(repo), rule_k6(repo),
             rule_k8(repo), rule_k9(repo), rule_k10(repo), rule_k11(repo), rule_k12(repo), rule_k13(repo), rule_k14(repo), rule_k15(repo), rule_k16(repo),
-            rule_k17(repo)]
+            rule_k17(repo), rule_k18(repo)]
